@@ -56,6 +56,8 @@ impl Program {
     }
 }
 
+pub const OPTIONS_LINE: &str = "; options";
+
 pub const FAIL_KINDS: &[&str] = &[
     "undef-symbol",
     "dup-label",
@@ -535,10 +537,27 @@ impl<'a> Gen<'a> {
         if self.opts.messages && self.r.chance(1, 3) {
             l.push(self.msg("message"));
         }
-        if self.r.chance(1, 4) {
-            l.push(format!(".ifdef {}", self.pool.defines[self.r.usize(self.pool.defines.len())]));
-            l.push("    nop".to_string());
-            l.push(".endif".to_string());
+        // the expansion depends on facts of the build it is expanded in: a define, the value of
+        // a (parse-time constant) .equ
+        match self.r.below(6) {
+            0 | 1 => {
+                l.push(format!(".ifdef {}", self.pool.defines[self.r.usize(self.pool.defines.len())]));
+                l.push("    nop".to_string());
+                l.push(".else".to_string());
+                l.push("    inc r7".to_string());
+                l.push("    dec r7".to_string());
+                l.push(".endif".to_string());
+            }
+            2 if !self.equs_pure.is_empty() => {
+                let k = self.equs_pure[self.r.usize(self.equs_pure.len())].clone();
+                l.push(format!(".if {} > {}", k, self.r.below(120)));
+                l.push("    swap r9".to_string());
+                l.push(".else".to_string());
+                l.push(format!("    ldi r24, low({})", k));
+                l.push("    nop".to_string());
+                l.push(".endif".to_string());
+            }
+            _ => {}
         }
         l.push(if self.r.chance(1, 2) { ".endm".to_string() } else { ".endmacro".to_string() });
         self.no_alias = false;
@@ -640,7 +659,9 @@ pub fn gen(r: &mut Rng, pool: &Pool, opts: &GenOpts) -> Program {
         uniq: 0,
     };
     let nblocks = g.r.range(opts.min_blocks as u64, opts.max_blocks as u64) as usize;
-    let mut nodes: Vec<Node> = vec![];
+    // the first line is a placeholder that near-copies replace by a definition, so that every
+    // other line keeps its number
+    let mut nodes: Vec<Node> = vec![Node::Lines(vec![OPTIONS_LINE.to_string()])];
     // the device line comes early so that instruction choices know the device
     let with_device = g.r.below(8) < opts.device_eighths;
     let device_at = if with_device { g.r.usize(3.min(nblocks)) } else { usize::MAX };
@@ -777,5 +798,208 @@ pub fn family(r: &mut Rng, n: usize, msg_prefix: &str) -> Vec<Program> {
         }
         v.push(gen(r, &pool, &o));
     }
+    // near-copies: a member with exactly one fact changed (a define present or absent, the value
+    // of an .equ, the device, a register alias). Whatever one build remembers about the other -
+    // an expansion, an evaluated expression, a selected device - now has the wrong meaning.
+    let nvar = r.range(1, 2) as usize;
+    for _ in 0..nvar {
+        if v.is_empty() {
+            break;
+        }
+        let base = v[r.usize(v.len())].clone();
+        if let Some(p) = variant_of(r, &base) {
+            v.push(p);
+        }
+    }
     v
+}
+
+fn map_lines(nodes: &[Node], f: &mut dyn FnMut(&str) -> Option<Option<String>>) -> Vec<Node> {
+    // f: None = keep, Some(None) = drop the line, Some(Some(x)) = replace it
+    let mut edit = |ls: &Vec<String>| -> Vec<String> {
+        let mut out = vec![];
+        for l in ls {
+            match f(l) {
+                None => out.push(l.clone()),
+                Some(None) => {}
+                Some(Some(x)) => out.push(x),
+            }
+        }
+        out
+    };
+    let mut res = vec![];
+    for n in nodes {
+        res.push(match n {
+            Node::Lines(l) => Node::Lines(edit(l)),
+            Node::Macro(l) => Node::Macro(l.clone()),
+            Node::Cond { head, then, els } => Node::Cond { head: head.clone(), then: then.clone(), els: els.clone() },
+        });
+    }
+    res
+}
+
+/// One fact changed in a copy of `base` (top-level plain lines only, so the structure stays).
+pub fn variant_of(r: &mut Rng, base: &Program) -> Option<Program> {
+    let lines = base.lines();
+    let has = |p: &str| lines.iter().any(|l| l.trim_start().starts_with(p));
+    let mut kinds: Vec<&str> = vec!["add-define"];
+    if has("#define ") || has(".define ") {
+        kinds.push("drop-define");
+    }
+    if has(".equ ") {
+        kinds.push("equ-value");
+        kinds.push("equ-value");
+    }
+    if has(".device ") {
+        kinds.push("device");
+    } else {
+        kinds.push("add-device");
+    }
+    if has(".def ") {
+        kinds.push("def-register");
+    }
+    if base.nodes.iter().any(|n| matches!(n, Node::Macro(ls) if ls.iter().any(|l| l.trim_start().starts_with(".if")))) {
+        kinds.push("macro-fact");
+        kinds.push("macro-fact");
+        kinds.push("macro-fact");
+    }
+    let kind = kinds[r.usize(kinds.len())];
+    let mut done = false;
+    let pick = r.below(4);
+    let mut seen = 0u64;
+    let newval = r.below(250);
+    let newreg = r.range(16, 31);
+    let newdev = DEVICES[r.usize(DEVICES.len())].0;
+    let mut nodes = match kind {
+        "drop-define" => map_lines(&base.nodes, &mut |l| {
+            let t = l.trim_start();
+            if !done && (t.starts_with("#define ") || t.starts_with(".define ")) {
+                seen += 1;
+                if seen > pick % 2 {
+                    done = true;
+                    return Some(Some("; (define removed)".to_string()));
+                }
+            }
+            None
+        }),
+        "equ-value" => map_lines(&base.nodes, &mut |l| {
+            let t = l.trim_start();
+            if !done && t.starts_with(".equ ") {
+                seen += 1;
+                if seen > pick % 3 {
+                    if let Some(eq) = l.find('=') {
+                        done = true;
+                        return Some(Some(format!("{}= {}", &l[..eq], newval)));
+                    }
+                }
+            }
+            None
+        }),
+        "device" => map_lines(&base.nodes, &mut |l| {
+            if !done && l.trim_start().starts_with(".device ") {
+                done = true;
+                return Some(Some(if pick == 0 { "; (device removed)".to_string() } else { format!(".device {}", newdev) }));
+            }
+            None
+        }),
+        "def-register" => map_lines(&base.nodes, &mut |l| {
+            if !done && l.trim_start().starts_with(".def ") {
+                if let Some(eq) = l.find('=') {
+                    done = true;
+                    return Some(Some(format!("{}= r{}", &l[..eq], newreg)));
+                }
+            }
+            None
+        }),
+        _ => base.nodes.clone(),
+    };
+    if kind == "add-define" {
+        // a define that some conditional of the program tests, if there is one
+        let tested: Vec<String> = lines.iter().filter_map(|l| {
+            let t = l.trim_start();
+            for p in [".ifdef ", ".ifndef ", "#ifdef "] {
+                if let Some(rest) = t.strip_prefix(p) {
+                    return rest.split_whitespace().next().map(|s| s.to_string());
+                }
+            }
+            None
+        }).collect();
+        if tested.is_empty() {
+            return None;
+        }
+        let name = tested[r.usize(tested.len())].clone();
+        nodes = map_lines(&nodes, &mut |l| {
+            if !done && l == OPTIONS_LINE {
+                done = true;
+                return Some(Some(format!("#define {}", name)));
+            }
+            None
+        });
+    }
+    if kind == "add-device" {
+        nodes = map_lines(&nodes, &mut |l| {
+            if !done && l == OPTIONS_LINE {
+                done = true;
+                return Some(Some(format!(".device {}", newdev)));
+            }
+            None
+        });
+    }
+    if kind == "macro-fact" {
+        // change exactly the fact that a conditional inside a macro body tests
+        let mut facts: Vec<(bool, String)> = vec![];
+        for n in &base.nodes {
+            if let Node::Macro(ls) = n {
+                for l in ls {
+                    let t = l.trim_start();
+                    if let Some(rest) = t.strip_prefix(".ifdef ") {
+                        facts.push((true, rest.trim().to_string()));
+                    } else if let Some(rest) = t.strip_prefix(".if ") {
+                        if let Some(name) = rest.split_whitespace().next() {
+                            facts.push((false, name.to_string()));
+                        }
+                    }
+                }
+            }
+        }
+        if facts.is_empty() {
+            return None;
+        }
+        let (is_define, name) = facts[r.usize(facts.len())].clone();
+        if is_define {
+            let defined = lines.iter().any(|l| {
+                let t = l.trim_start();
+                (t.starts_with("#define ") || t.starts_with(".define ")) && t.split_whitespace().nth(1) == Some(name.as_str())
+            });
+            nodes = map_lines(&nodes, &mut |l| {
+                let t = l.trim_start();
+                if defined {
+                    if (t.starts_with("#define ") || t.starts_with(".define ")) && t.split_whitespace().nth(1) == Some(name.as_str()) {
+                        done = true;
+                        return Some(Some("; (define removed)".to_string()));
+                    }
+                } else if !done && l == OPTIONS_LINE {
+                    done = true;
+                    return Some(Some(format!("#define {}", name)));
+                }
+                None
+            });
+        } else {
+            let flip = if r.chance(1, 2) { 0 } else { 251 };
+            nodes = map_lines(&nodes, &mut |l| {
+                let t = l.trim_start();
+                if !done && t.starts_with(".equ ") && t[5..].trim_start().to_lowercase().starts_with(&name.to_lowercase()) {
+                    if let Some(eq) = l.find('=') {
+                        done = true;
+                        return Some(Some(format!("{}= {}", &l[..eq], flip)));
+                    }
+                }
+                None
+            });
+        }
+    }
+    if !done {
+        return None;
+    }
+    Some(Program { nodes, intent: format!("variant:{}:{}", kind, base.intent) })
 }
